@@ -138,7 +138,10 @@ def match_d36(case, impl, model):
     compare equal and hash alike but evaluate differently.  Input class: some marker text spells a quote as \\x22 / \\x27.
     Expected wrong answer: 'equal but behave differently'."""
     if case.cmd != "law.eq" or case.args[0] != "marker": return False
-    if not any("\\x22" in a or "\\x27" in a for a in case.args[1:]): return False
+    import re
+    # only the generator's own shape: an escaped quote directly followed by a boolean operator and a literal in the other quote style,
+    # i.e. a literal whose text imitates marker syntax (any other equal-but-different pair with escapes is NOT this finding)
+    if not any(re.search(r"\\x22 (or|and) '[^']*\\x22[^']*' == \\x22", a) for a in case.args[1:]): return False
     return isinstance(impl, str) and impl.startswith("marker equal but behave differently")
 
 def nontrivial(c, i):
